@@ -1,7 +1,232 @@
 package main
 
-func outerForced(thorough bool) []*Case { return nil }
+// lock.OuterCancel: operations, real-time observations and the model-independent monitors.
+
+import (
+	"context"
+	"fmt"
+	"time"
+)
+
+func (r *run) elapsed() time.Duration { return time.Since(r.t0) }
+
+// logTicks brings the model clock (1 tick = 1 ms) up to the measured elapsed time. Caller holds r.mu
+// or is the only logger of ticks (ticks are only logged from the controller goroutine).
+func (r *run) logTicks(el time.Duration) {
+	want := int(el / time.Millisecond)
+	for r.ticks < want {
+		r.s.log("env e=tick")
+		r.ticks++
+	}
+}
+
+func (r *run) outerLock(t int, st Step) func() {
+	th := r.th[t]
+	return func() {
+		if st.Md == "r" {
+			pre := 0
+			if st.Ms == 1 {
+				pre = 1
+			}
+			r.s.log("call t=%d op=rlock pre=%d", t, pre)
+			var (
+				rctx   context.Context
+				cancel context.CancelFunc
+				err    error
+			)
+			if p := guard(func() { rctx, cancel, err = r.oc.RLock(th.ctx) }); p != nil {
+				r.violate("outer-panic", fmt.Sprintf("RLock panicked: %v", p))
+				return
+			}
+			r.mu.Lock()
+			if err != nil {
+				th.ph = phIdle
+				v := 2
+				if th.ctx.Err() != nil && err == th.ctx.Err() {
+					v = 1
+				}
+				shut := r.shutdown
+				r.mu.Unlock()
+				r.hist[fmt.Sprintf("ret.rlock.err%d", v)]++
+				if v == 2 && !shut {
+					r.violate("outer-error-while-running", fmt.Sprintf("caller %d: RLock returned %v although neither its context is done nor shutdown was requested", t, err))
+				}
+				r.s.log("ret t=%d v=%d", t, v)
+				return
+			}
+			th.ph, th.rctx, th.unlock, th.inside, th.toldAt = phHolding, rctx, cancel, true, 0
+			// no reader is admitted while a writer holds (while running)
+			if w := r.occW[0].Load(); w != 0 && !r.shutdown {
+				r.viol = append(r.viol, violation{"outer-reader-during-writer", fmt.Sprintf("reader %d admitted while %d writer(s) hold the lock", t, w)})
+				r.abort.Store(true)
+			}
+			r.mu.Unlock()
+			r.s.log("ret t=%d v=0", t)
+			return
+		}
+		r.mu.Lock()
+		callAt := r.elapsed()
+		r.wCalls[t] = callAt
+		r.mu.Unlock()
+		r.s.log("call t=%d op=lock", t)
+		var fn context.CancelFunc
+		if p := guard(func() { fn = r.oc.Lock() }); p != nil {
+			r.violate("outer-panic", fmt.Sprintf("Lock panicked: %v", p))
+			return
+		}
+		grantAt := r.elapsed()
+		r.mu.Lock()
+		r.logTicks(grantAt)
+		th.ph, th.unlock = phHolding, fn
+		if !r.shutdown {
+			if w := r.occW[0].Add(1); w != 1 {
+				r.viol = append(r.viol, violation{"outer-mutual-exclusion", fmt.Sprintf("writer %d granted while %d other writer(s) hold the lock", t, w-1)})
+				r.abort.Store(true)
+			}
+			// every earlier reader has released or was told to stop with the configured cause, and a
+			// reader that did not release by itself was not cancelled before the grace period
+			for u, ot := range r.th {
+				if u == t || !ot.inside {
+					continue
+				}
+				if ot.rctx.Err() == nil {
+					r.viol = append(r.viol, violation{"outer-writer-with-live-reader", fmt.Sprintf("writer %d granted while reader %d is inside with a live context", t, u)})
+					r.abort.Store(true)
+				} else if context.Cause(ot.rctx) == errOuter && (ot.toldAt == 0 || ot.toldAt > callAt) && grantAt-callAt < time.Duration(r.c.GraceMs)*time.Millisecond {
+					r.viol = append(r.viol, violation{"outer-writer-before-grace", fmt.Sprintf("writer %d granted %v after its call although reader %d had not released (grace %dms)", t, grantAt-callAt, u, r.c.GraceMs)})
+					r.abort.Store(true)
+				}
+			}
+		} else {
+			r.occW[0].Add(1)
+		}
+		r.mu.Unlock()
+		r.s.log("ret t=%d v=0", t)
+	}
+}
+
+func (r *run) outerUnlock(t int, st Step) func() {
+	th := r.th[t]
+	return func() {
+		if th.md == "r" {
+			r.mu.Lock()
+			th.inside = false
+			r.mu.Unlock()
+			r.s.log("call t=%d op=runlock", t)
+		} else {
+			r.mu.Lock()
+			r.occW[0].Add(-1)
+			delete(r.wCalls, t)
+			r.mu.Unlock()
+			r.s.log("call t=%d op=unlock", t)
+		}
+		if p := guard(func() { th.unlock() }); p != nil {
+			r.violate("outer-panic", fmt.Sprintf("unlock func panicked: %v", p))
+			return
+		}
+		r.mu.Lock()
+		th.ph = phIdle
+		r.mu.Unlock()
+		r.s.log("ret t=%d v=0", t)
+	}
+}
+
+// outerObserve runs at a quiescent point (caller holds r.mu): read every inside reader's context,
+// then the clock, then log ticks and the observations; check the cancellation causes.
+func (r *run) outerObserve() {
+	type obs struct {
+		t     int
+		done  bool
+		cause bool
+	}
+	var os []obs
+	for t, th := range r.th {
+		if th.inside && th.ph == phHolding && th.rctx != nil {
+			o := obs{t: t, done: th.rctx.Err() != nil}
+			if o.done {
+				o.cause = context.Cause(th.rctx) == errOuter
+			}
+			os = append(os, o)
+		}
+	}
+	el := r.elapsed()
+	r.logTicks(el)
+	for _, o := range os {
+		th := r.th[o.t]
+		switch {
+		case !o.done:
+			r.s.log("probe t=%d p=live", o.t)
+			r.hist["reader.live"]++
+		case o.cause:
+			if th.toldAt == 0 {
+				th.toldAt = el
+			}
+			r.s.log("probe t=%d p=cancelled v=1", o.t)
+			r.hist["reader.cancelled.cause"]++
+			// told to stop with the configured cause: only a writer (after the grace period) or shutdown
+			ok := r.shutdown
+			for _, at := range r.wCalls {
+				if el-at >= time.Duration(r.c.GraceMs)*time.Millisecond {
+					ok = true
+				}
+			}
+			if !ok && !th.lockErr {
+				// a writer that was granted and already unlocked also justifies it
+				if r.hist["writer.granted"] == 0 {
+					r.viol = append(r.viol, violation{"outer-spurious-cancel", fmt.Sprintf("reader %d cancelled with the configured cause at %v: no shutdown, no writer past its grace period", o.t, el)})
+					r.abort.Store(true)
+				}
+			}
+		default:
+			r.s.log("probe t=%d p=cancelled v=0", o.t)
+			r.hist["reader.cancelled.parent"]++
+			if th.ctx.Err() == nil {
+				r.viol = append(r.viol, violation{"outer-spurious-cancel", fmt.Sprintf("reader %d context done with cause %v although its parent is live", o.t, context.Cause(th.rctx))})
+				r.abort.Store(true)
+			}
+		}
+	}
+	for _, th := range r.th {
+		if th.ph == phHolding && th.md == "w" {
+			r.hist["writer.granted"]++
+		}
+	}
+}
+
+func outerForced(thorough bool) []*Case {
+	var cs []*Case
+	add := func(fam string, n, grace int, steps ...Step) {
+		cs = append(cs, &Case{Prim: "outer", N: n, Keys: 1, GraceMs: grace, Family: fam, Steps: steps})
+	}
+	sl := func(ms int) Step { return Step{Do: "sleep", Ms: ms} }
+	for _, g := range []int{2, 3, 5} {
+		// readers that release only at the grace timeout
+		add("writer-waits-grace", 4, g, lk(0, 0, "r", false), lk(1, 0, "r", false), lk(3, 0, "w", false), sl(g+2),
+			lk(2, 0, "r", false), ul(3, false, false), ul(0, false, false), ul(1, false, false), ul(2, false, false))
+		// readers that release promptly: the writer is granted before the grace period
+		add("writer-readers-release", 3, g, lk(0, 0, "r", false), lk(1, 0, "r", false), lk(2, 0, "w", false),
+			ul(0, false, false), ul(1, false, false), ul(2, false, false))
+		// two writers, reader queued behind them
+		add("two-writers", 4, g, lk(0, 0, "w", false), lk(1, 0, "w", false), lk(2, 0, "r", false), ul(0, false, false),
+			ul(1, false, false), ul(2, false, false))
+		// reader whose parent context ends while it waits behind a writer / while it holds
+		add("reader-parent-cancel", 3, g, lk(0, 0, "w", false), lk(1, 0, "r", false), Step{Do: "cancel", T: 1},
+			lk(2, 0, "r", false), ul(0, false, false), Step{Do: "cancel", T: 2}, ul(2, false, false))
+		// shutdown with readers inside; Lock keeps working, RLock fails
+		add("shutdown", 4, g, lk(0, 0, "r", false), lk(1, 0, "r", false), Step{Do: "close"}, sl(1),
+			lk(2, 0, "w", false), lk(3, 0, "r", false), ul(2, false, false), ul(0, false, false), ul(1, false, false))
+		// shutdown while a writer waits for the grace period
+		add("shutdown-during-grace", 3, g, lk(0, 0, "r", false), lk(1, 0, "w", false), Step{Do: "close"}, sl(1),
+			ul(1, false, false), ul(0, false, false))
+	}
+	return cs
+}
 
 func runOuter(c *Case, next func(r *run) *Step) *outcome {
-	return &outcome{c: c, hist: map[string]int{}}
+	r := newRun(c)
+	header := r.header()
+	lines := r.execute(next)
+	o := &outcome{c: c, lines: append([]string{header}, lines...), viol: r.viol, hist: r.hist}
+	o.nontrv = r.hist["blocked.confirmed"] > 0 || r.hist["reader.cancelled.cause"] > 0
+	return o
 }
